@@ -52,6 +52,8 @@ func cmdSelftest(args []string) int {
 	for _, prop := range props {
 		files, _ := filepath.Glob(filepath.Join(*verif, "mutants", prop, "*.json"))
 		sort.Strings(files)
+		propTotal, propBad := 0, 0
+		var survived []string
 		var wg sync.WaitGroup
 		sem := make(chan struct{}, *par)
 		for _, f := range files {
@@ -64,8 +66,11 @@ func cmdSelftest(args []string) int {
 				ok, msg := runMutant(*repo, *verif, prop, f)
 				mu.Lock()
 				total++
+				propTotal++
 				if !ok {
 					bad++
+					propBad++
+					survived = append(survived, filepath.Base(f)+": "+msg)
 				}
 				status := "ok  "
 				if !ok {
@@ -76,6 +81,7 @@ func cmdSelftest(args []string) int {
 			}()
 		}
 		wg.Wait()
+		writeJSON(filepath.Join(*verif, "out", "_selftest", prop+".summary.json"), map[string]interface{}{"total": propTotal, "unexpected": propBad, "details": survived})
 	}
 	fmt.Printf("selftest: %d mutants, %d unexpected\n", total, bad)
 	if bad > 0 {
